@@ -60,3 +60,6 @@ reg('C14', [('verus', 'xoshiro'), ('verus', 'xorshift'), ('verus', 'jitter')], l
     assumptions=['Debug/serde formatting are not claimed panic-free'])
 reg('C16', [('verus', 'jitter')], level='proof', trusted_base=TB_COMMON + TB_JIT,
     explanation='next_u32/next_u64/fill_bytes/clone contracts over the pending-half flag; fill_bytes via the relational contract of rand_core fill_bytes_via_next')
+reg('C15', [('verus', 'jitter')], level='proof', trusted_base=TB_COMMON + TB_JIT + ['the 64 columns of the inverse of stir\'s linear part are produced by tools/stir_inverse.py on every run; the verifier re-evaluates them (64 by(compute) evaluations), so they are not trusted'],
+    explanation='lemmas over the spec functions the code is proved equal to: lfsr64 bijective in the pool (explicit inverse), injective in the time value (bit-peeling induction), rotl 7 a permutation, stir injective (affine-linearity + explicit inverse on a basis); code-level obligations jitter.lfsr.*, jitter.stir_pool.*, jitter.measure_jitter.spec tie them to the real functions',
+    assumptions=['one-to-one on the finite set of 2^64 pool values implies onto (pigeonhole) for the stir step; for the LFSR fold the inverse is explicit'])
